@@ -289,13 +289,22 @@ def r4(facts):
                        'the %s branch must invalidate the loop on the flags it sets itself; it tests %s but sets %s' % (evname, sorted(tests), sorted(sets))))
     # start >= end invalidates
     ge = False
+    # the two tick positions: the locals handed to buildTimeLine as loop start and loop end
+    ls_id = le_id = None
+    for b, j, st in bt.cfg.stmts():
+        for x in calls_in(st['s']):
+            if short(callee_name(x)) == 'buildTimeLine' and len(x.get('a', [])) >= 3:
+                ls_id, le_id = strip(x['a'][1]).get('id'), strip(x['a'][2]).get('id')
+    if ls_id is None or le_id is None:
+        raise build.AnalysisBroken('C09.R4: the loop tick positions handed to buildTimeLine not found')
     for b, j, st in bt.cfg.stmts():
         for x in walk(st['s']):
             ap = assign_parts(x)
             if ap and strip(ap[0]).get('k') == 'MemberExpr' and short(strip(ap[0])['n']) == 'invalidLoop' and const_of(ap[1]) == 1:
-                txt = ' '.join(fact_str(f) for f in guard_facts(bt, b, st))
-                if 'loopStartTicks >= loopEndTicks' in txt or 'loopEndTicks <= loopStartTicks' in txt:
-                    ge = True
+                for f in guard_facts(bt, b, st):
+                    if f[0] == 'cmp' and ((f[1] == '>=' and strip(f[2]).get('id') == ls_id and strip(f[3]).get('id') == le_id) or
+                                          (f[1] == '<=' and strip(f[2]).get('id') == le_id and strip(f[3]).get('id') == ls_id)):
+                        ge = True
     out.append(Obl('C09.R4', bt.name, 'start >= end invalidates', bt.loc, 'discharged' if ge else 'finding',
                    why='invalidLoop is set when loopStartTicks >= loopEndTicks' if ge else 'no invalidation of a loop whose end is not after its start'))
     # rewind re-arms the counter: loopsCount := requested count BEFORE reset() copies it into loopsLeft
